@@ -49,7 +49,7 @@ def case_strategy(draw):
     if draw(st.integers(0, 3)) == 0:
         case["inject"] = [[draw(st.sampled_from(["src", "src", "dst"])), draw(st.integers(1, 14)), "cancel", True]]
     if f is not None:
-        case["dest_kind"] = draw(st.sampled_from(["file", "file", "dir", "existing"]))
+        case["dest_kind"] = draw(st.sampled_from(["file", "file", "dir", "existing", "dir_existing"]))
     if draw(st.integers(0, 3)) == 0:
         case["pacing"] = draw(S.pacing_scripts(max_len=16))
     return case
